@@ -12,7 +12,7 @@ MBS_EDGE = ['@b""', '@b"a"', '@b"abc"', '@b"\\xff\\xfe"', '@b"a b c"', '@b"123"'
 CHR_EDGE = ["'a'", "'0'", "' '", "'\\n'", "'가'", "'%'"]
 BCH_EDGE = ["@b'a'", "@b'0'", "@b'\\xff'", "@b' '", "@b'%'"]
 REX_EDGE = ["/a/", "/ab+/", "/[a-z]+/", "/^$/", "/(a|b)*c/", "/a{2,3}/", "/./", "/\\y/", "/[[:alpha:]]/", "/x*/", "/(a)(b)?/", "/$/", "/^/", "/[^ ]+/", "/\\//"]
-SCALARS = ["a", "b", "c", "d", "s", "t", "n", "i", "j"]
+SCALARS = ["a", "b", "c", "d", "s", "t", "n", "i", "j", "bs", "bt"]
 MAPS = ["m", "m2"]
 ARRS = ["r"]
 GLOBALS_RW = ["ARGC", "ARGV[1]", "ARGV[2]", "NF", "NR", "FNR", "FS", "OFS", "ORS", "RS", "SUBSEP", "CONVFMT", "OFMT", "IGNORECASE", "RSTART", "RLENGTH",
@@ -119,6 +119,9 @@ class Gen:
 
     def lvalue(self, containers_ok=True):
         k = self.r.random()
+        if self.in_func and self.r.random() < 0.2:
+            # the function's own parameters (by value, by reference, omitted -> nil) and locals
+            self.f("lv:param"); return self.pick(["p0", "p0", "p1", "p2", "l1"])
         if k < 0.40:
             return self.pick(SCALARS)
         if k < 0.55:
@@ -127,6 +130,10 @@ class Gen:
             self.f("lv:mapidx2"); return "%s[%s,%s]" % (self.pick(MAPS), self.expr(1), self.expr(1))
         if k < 0.64:
             self.f("lv:nested"); return "%s[%s][%s]" % (self.pick(MAPS), self.expr(1), self.expr(1))
+        if k < 0.66 and self.in_func:
+            self.f("lv:local-or-param-idx"); return "%s[%s]" % (self.pick(["l1", "l2", "p0", "p1"]), self.expr(1))
+        if k < 0.67:
+            self.f("lv:nested-arr"); return "%s[%s][%s]" % (self.pick(ARRS), self.pick(["0", "1", "2", "70"]), self.pick(["0", "1", "3", self.expr(1)]))
         if k < 0.72:
             self.f("lv:arridx"); return "%s[%s]" % (self.pick(ARRS), self.pick(["0", "1", "2", "3", "10", "-1", "200", self.expr(1)]))
         if k < 0.82:
@@ -155,6 +162,15 @@ class Gen:
                     args.append(self.pick(self.funcs)[0])  # function value
                 else:
                     args.append(self.expr(d - 1))
+        if name == "close" and len(args) == 2 and self.r.random() < 0.8:
+            args[0] = self.pick(CMDS + RWCMDS + FILES); args[1] = self.pick(['"r"', '"w"', '"r"', '"w"', '"x"', '""', '@b"r"'])
+            self.f("close:partial")
+        if name in ("setioattr", "getioattr") and len(args) == 3 and self.r.random() < 0.8:
+            args[0] = self.pick(CMDS + FILES)
+            args[1] = self.pick(['"rtimeout"', '"wtimeout"', '"ctimeout"', '"atimeout"', '"codepage"', '"nosuch"', '"RTIMEOUT"', '"rtimeout\\0"'])
+            if name == "setioattr":
+                args[2] = self.pick(["1", "1.5", "-1", "0", '"utf8"', '"nosuchcp"', '"1.5.5"', "9223372036854775807", "1e300", "m", '""'])
+            self.f("ioattr:named")
         if name == "hawk::call" and self.funcs and self.r.random() < 0.8:
             args[0:1] = ['"%s"' % self.pick(self.funcs)[0]]
         return "%s(%s)" % (name, ", ".join(args))
@@ -167,6 +183,8 @@ class Gen:
                 self.f("v:argv"); return self.pick(["@argc", "@argv[0]", "@argv[1]", "@argv[7]", "@argv[(@argc-1)]", "(2 in @argv)"])
             if k < 0.55:
                 return self.literal()
+            if k < 0.59 and self.funcs:
+                self.f("v:fun"); return self.pick(self.funcs)[0]
             if k < 0.93:
                 return self.lvalue()
             return "(%s)" % self.pick(MAPS + ARRS)
@@ -213,6 +231,12 @@ class Gen:
         return "(%s)" % self.expr(d - 1)
 
     def getline(self):
+        g = self._getline()
+        if self.r.random() < 0.3:
+            self.f("getline:bytes"); g = g.replace("getline", "getbline")
+        return g
+
+    def _getline(self):
         k = self.r.random()
         var = "" if self.r.random() < 0.4 else " " + self.lvalue(False)
         if k < 0.3:
@@ -263,7 +287,9 @@ class Gen:
             self.f("st:printf")
             fmt, need = self.pick([('"%d %s\\n"', 2), ('"%5.2f|%-8s|%c\\n"', 3), ('"%x %o %e %g\\n"', 4), ('"%*d %.*s\\n"', 4), ('"%s"', 1), ('"%i %u %%\\n"', 2),
                                    ('"%c%c"', 2), ('"%10000d"', 1), ('"%.3000f"', 1), ('"%s %s %s %s"', 4), ('"%5$d"', 1), ('"%ld %lld %hd"', 3),
-                                   ('"%+d % d %#x %#o %08.3d"', 5), (self.expr(1), r.randint(0, 3))])
+                                   ('"%+d % d %#x %#o %08.3d"', 5), (self.expr(1), r.randint(0, 3)),
+                                   ('@b"%d %s\\n"', 2), ('@b"%5.2f|%-8s|%c\\n"', 3), ('@b"%x %o %e %g %i %u %%\\n"', 6), ('@b"%*d %.*s %c%c\\n"', 6), ('@b"%10000d%.300f"', 2),
+                                   ('@b"%+d % d %#x %#o %08.3d %5$d"', 5), ("bs", r.randint(0, 3))])
             n = need if r.random() < 0.93 else r.randint(0, 4)
             return "printf %s%s%s;" % (fmt, "".join(", " + self.expr(2) for _ in range(n)), self.redirect())
         if k < 0.46:
@@ -356,6 +382,14 @@ class Gen:
             self.f("include"); parts.append('@include "%s";' % self.pick(["nofile.hawk", "in", "f1"]))
         if r.random() < 0.10:
             self.f("global-decl"); parts.append("@global g1, g2;")
+        if r.random() < 0.5:
+            # typed prelude: variables that by-reference builtins and operators later meet hold values of every string-like type
+            self.f("prelude:typed")
+            parts.append("BEGIN { bs = %s; bt = %s; s = %s; t = %s; a = %s; m[1] = %s; m2[\"k\"] = %s; r = hawk::array(%s, %s); }" % (
+                self.pick(MBS_EDGE), self.pick(MBS_EDGE + BCH_EDGE), self.pick(STR_EDGE), self.pick(STR_EDGE + MBS_EDGE + CHR_EDGE),
+                self.pick(MBS_EDGE + STR_EDGE + INT_EDGE), self.pick(MBS_EDGE + STR_EDGE), self.pick(MBS_EDGE + STR_EDGE), self.pick(MBS_EDGE + STR_EDGE), self.pick(INT_EDGE + MBS_EDGE)))
+        if r.random() < 0.02:
+            self.f("include-once"); parts.append('@include_once "%s";' % self.pick(["nofile.hawk", "in", "f1"]))
         nf = self.pick([0, 0, 1, 1, 2, 3])
         for k in range(nf):
             name = self.pick(["f", "g", "h", "main"]) if k == 0 else "f%d" % k
@@ -715,9 +749,132 @@ def parse_error_after_prefix(g):
     return pre + (ctx % expr) if "%s" in ctx else pre + ctx + expr
 
 
+# subjects of every string-like type, and the patterns that decide termination of a scanning loop: matches of length zero at the start,
+# in the middle and at the end, anchors, optional/alternation-with-empty, as regex literal, as string (compiled per call) and as byte string
+TW_SUBJ = ['"abcabc"', '@b"abcabc"', '"a b  c"', '@b"a b  c"', '""', '@b""', '"a"', '@b"a"', "'a'", "@b'a'", '"aXbXc"', '@b"aXbXc"', '"가나다abc"', '@b"\\xff\\xfeab"',
+           "12345", "1.5", "@nil", '"a:b:c:"', '@b"a:b:c:"', '"\\n\\na\\n\\nb\\n"', '@b"x\\x00y"', '"abc\\n"', '@b"abc\\n"']
+TW_PATS = ['/$/', '/^/', '/x*/', '/a*/', '/a*$/', '/(a|)/', '/()/', '/b*c*/', '/[a-z]*/', '/\\y/', '/.?/', '/$|^/', '/a|$/', '/c?$/', '/(b|)*/', '/ */', '/X*/',
+           '""', '"$"', '"^"', '"x*"', '"a*$"', '"(a|)"', '"[a-z]*"', '@b""', '@b"$"', '@b"x*"', '@b"c*$"', "'a'", "@b'a'", "@b'$'",
+           '/a/', '/b+/', '/[ac]/', '"b"', '@b"b"', '/./', '/.*/', '/abc$/', '/^abc/', '" "', '@b" "', '":"', "tp", "tp"]
+TW_REPL = ['"-"', '@b"-"', '""', '@b""', '"&&"', '"[&]"', '"\\\\&"', '@b"[&]"', "'r'", "@b'r'", "5", "1.5", "@nil", '"\\\\1\\\\2"', '"가"', '@b"\\xff"', '"0123456789"']
+
+
+def twin_sweep(g):
+    """every builtin and operator that has a byte-string twin, driven with subjects of each string-like type (string, byte string, character,
+    byte character, number, nil) and with the patterns that decide whether its scanning loop ends"""
+    r = g.r
+    g.f("t:twin-sweep")
+    st = []
+    st.append("tp = %s; tu = %s; tv = %s; tw = tv;" % (g.pick(['"x*"', '"$"', '@b"$"', '@b"x*"', '""', '"a*"', "'a'", '/a*/']), g.pick(TW_SUBJ), g.pick(TW_SUBJ)))
+    if r.random() < 0.35:
+        st.append("IGNORECASE = %s;" % g.pick(["1", "0", "-1", "2.5"]))
+    if r.random() < 0.3:
+        st.append("$0 = %s;" % g.pick(TW_SUBJ))
+    for _ in range(g.pick([1, 2, 3, 4])):
+        subj, pat, rep = g.pick(TW_SUBJ), g.pick(TW_PATS), g.pick(TW_REPL)
+        tgt = g.pick(["tu", "tv", "tu", "tv", "$0", "$1", "$2", "m[1]", "tw"])
+        q = r.randrange(16)
+        if q < 4:
+            g.f("tw:sub"); fn = g.pick(["sub", "gsub", "gsub", "str::sub", "str::gsub", "str::gsub"])
+            form = g.pick(["%s(%s, %s, %s)" % (fn, pat, rep, tgt), "%s(%s, %s, %s)" % (fn, pat, rep, tgt), "%s(%s, %s)" % (fn, pat, rep)])
+            st.append("%s = %s; tn = %s; print tn, hawk::typename(%s), %s;" % (tgt if tgt not in ("$1", "$2") else "$0", subj, form, tgt, tgt))
+        elif q < 6:
+            g.f("tw:match"); st.append(g.pick(["tn = match(%s, %s); print tn, RSTART, RLENGTH;" % (subj, pat), "tn = match(%s, %s, tm); print tn, length(tm), tm[0], tm[1, \"start\"];" % (subj, pat),
+                                               "tn = str::match(%s, %s, %s); print tn, RSTART;" % (subj, pat, g.pick(["1", "0", "-1", "3", "7", "100"])),
+                                               "tn = str::match(%s, %s, %s, tm); print tn, length(tm), hawk::typename(tm[0]);" % (subj, pat, g.pick(["1", "2", "-2", "6", "7"]))]))
+        elif q < 9:
+            g.f("tw:split"); fs = g.pick(TW_PATS + ['"?:\\"\\"\\\\"', '"?,\'\'\\\\"', '@b"?:\\"\\"\\\\"', '"?"', '"? "', '"?????"', '" "', "@nil", '"\\t"', "'\\t'", '""'])
+            st.append("tn = %s(%s, ta%s); print tn, length(ta), hawk::typename(ta[1]), ta[1], ta[tn];" % (g.pick(["split", "split", "str::split", "str::splita"]), subj, g.pick(["", ", " + fs, ", " + fs])))
+        elif q < 10:
+            g.f("tw:index"); st.append("print %s(%s, %s%s), %s(%s, %s);" % (g.pick(["index", "str::index", "str::rindex"]), subj, g.pick(TW_SUBJ), g.pick(["", ", 2", ", -1", ", 0", ", 100"]),
+                                                                          g.pick(["substr", "str::substr", "str::subchar"]), subj, g.pick(["0", "1", "2", "-1", "7", "100"])))
+        elif q < 11:
+            g.f("tw:case-trim"); st.append("print %s(%s), %s(%s), length(%s), str::tocharcode(%s), hawk::typename(str::tombs(%s)), hawk::typename(str::frommbs(%s)), str::tonum(%s);" % (
+                g.pick(["tolower", "toupper", "str::tolower", "str::toupper"]), subj, g.pick(["str::trim", "str::ltrim", "str::rtrim", "str::normspace"]), subj, subj, subj, subj, subj, subj))
+        elif q < 13:
+            g.f("tw:format"); fmt = g.pick(['@b"%s|%5s|%-5s|%.2s|%c|%d|%x|%5.1f|%e|%%"', '"%s|%5s|%-5s|%.2s|%c|%d|%x|%5.1f|%e|%%"', '@b"%*s|%-*s|%.*s"', '@b"%c%c%c"', '@b"%s"', '@b"%5$s"', '@b"%"', '@b"%l"',
+                                            '@b"%10000s"', "tu", "tv", '@b"\\xff%s\\x00%d"'])
+            args = ", ".join(g.pick(TW_SUBJ + ["65", "-1", "1e300", "300", "'x'", "@b'y'", "m"]) for _ in range(r.randint(0, 9)))
+            st.append(g.pick(["tn = sprintf(%s%s); print hawk::typename(tn), length(tn);", "printf %s%s; print \"\";", "tn = str::printf(%s%s); print length(tn);", "printf(%s%s) > \"/dev/null\";"]) % (fmt, (", " + args) if args else ""))
+        elif q < 14:
+            g.f("tw:ops"); op = g.pick(["==", "!=", "<", ">", "<=", ">=", "===", "!==", "~", "!~", " ", "%%", "in"])
+            st.append("print (%s %s %s), (%s %s %s), hawk::typename(%s %s);" % (subj, op if op != "in" else "==", g.pick(TW_SUBJ), "tu", op if op != "in" else "~", pat, subj, g.pick(TW_SUBJ)))
+            # the comparison table is indexed by the pair of operand types: every type on either side, containers and function values included
+            ty = ["@nil", "'c'", "@b'c'", "5", "2.5", '"s"', '@b"s"', "twf", "m", "r", "tu", "tv"]
+            st.append("m[1] = 1; r = hawk::array(1); print (%s %s %s), (%s %s %s);" % (g.pick(ty), g.pick(["==", "!=", "<", ">", "<=", ">="]), g.pick(ty), g.pick(ty), g.pick(["==", "<", ">=", "!="]), g.pick(ty)))
+        else:
+            g.f("tw:getbline")
+            st.append(g.pick(['RS = %s; while ((getbline tl%s) > 0) { tc++; if (tc > 50) break; } print tc, hawk::typename(tl);' % (g.pick(['"\\n"', '""', '"[bd] ?"', '"x*"', '"$"', '" +"', "@b\"\\n\"", '"\\n\\n+"', "'\\n'"]), g.pick(["", ' < "in"', ' < "in"'])),
+                              '("echo a b c" | getbline tl); print hawk::typename(tl), tl; close("echo a b c");', '("echo a b c" || getbline tl); print tl; close("echo a b c", "r");',
+                              'print tu > "f1"; close("f1"); RS = %s; (getbline tl < "f1"); print length(tl); (getline tk < "f1"); print length(tk);' % g.pick(['"c"', '"b+"', '"$"', '""'])]))
+    ctx = g.pick(["BEGIN", "BEGIN", "BEGIN", "", "END"])
+    return "function twf(a) { return a; }\n%s { %s }\n" % (ctx, " ".join(st))
+
+
+# special variables whose setter can refuse a value: (name, values it accepts, values it refuses or that fail on the way in)
+SH_VARS = [("FS", ['"ab+"', '"[,;]+"', '":"', '" "', '"x|y"', '"?:\\"\\"\\\\"', '@b"ab+"', "'a'"], ['"a("', '"[a"', '"a{2,"', '"(("', '"*+"', "m", '"\\\\"', '"a(" bs']),
+           ("RS", ['"ab+"', '"\\n\\n+"', '"x"', '""', '"[,;]"'], ['"a("', '"[a"', '"(("', "m", '"a{1"']),
+           ("NF", ["3", "1", "0", "5", "NF + 2"], ["-1", '"-5"', "-9223372036854775807", "m", "4611686018427387904", "1e300", '"x"']),
+           ("OFMT", ['"%.3g"', '"%d"', '"%.6g"'], ['"\\0"', '"%.3g\\0"', "m"]),
+           ("CONVFMT", ['"%.3g"', '"%d"', '"%.6g"'], ['"\\0"', '"x\\0y"', "m"]),
+           ("IGNORECASE", ["1", "0", "2", '"1"'], ["m", "r"]),
+           ("SUBSEP", ['":"', '"--"'], ["m"]), ("OFS", ['":"', '"--"', '""'], ["m"]), ("ORS", ['"\\n"', '"|"'], ["m"]),
+           ("NR", ["5", "0"], ["m", "r"]), ("FNR", ["5", "0"], ["m"]), ("FILENAME", ['"x"'], ["m"]),
+           ("NUMSTRDETECT", ["1", "0"], ["m"]), ("STRIPRECSPC", ["1", "0"], ["m"]), ("STRIPSTRSPC", ["1", "0"], ["m"]),
+           ("$0", ['"a b c"', '"x"'], ["m", "r"]), ("$3", ['"z"', "5"], ["m"]), ("$(-1)", [], ['"x"']), ("$(4611686018427387904)", [], ['"x"']),
+           ("ARGC", ["2", "1"], ["m"]), ("ARGV", [], ["1"]), ("ENVIRON", [], ["1"])]
+
+
+def setter_history(g):
+    """a special variable is given one or two values its setter accepts (so that it holds derived state: compiled expressions, cached
+    strings, rebuilt fields), is used, and is then given a value the setter refuses — by assignment, compound assignment, a by-reference
+    write-back, getline, or a by-reference parameter; the run-time keeps being used where the language allows and is closed afterwards"""
+    r = g.r
+    g.f("t:setter-history")
+    st = ['m[1] = 1; r = hawk::array(1); bs = @b"x"; sv = "a abb c,d;e";']
+    name, good, bad = g.pick(SH_VARS)
+    g.f("sh:" + re.sub(r"[^A-Za-z$]", "", name)[:10])
+    use = g.pick(['$0 = sv; print NF, $1, $2;', 'n = split(sv, ta); print n, ta[1];', 'print (sv ~ /A/), index(sv, "B"), 1.23456789 "", 3.0;', '$3 = "q"; print; print NF;',
+                  'while ((getline l < "in") > 0) c++; close("in"); print c;', 'print m[1, 2], (1, 2) in m; print 1, 2;', '$0 = "x y"; $5 = "z"; print; NF = 2; print;',
+                  'print length($0), $NF, NR, FNR, FILENAME;'])
+    for _ in range(g.pick([0, 1, 1, 2, 2, 3])):
+        if good:
+            st.append("%s = %s;" % (name, g.pick(good)))
+            if r.random() < 0.7:
+                st.append(use)
+    # also disturb a second variable's state now and then
+    if r.random() < 0.3:
+        n2, g2, b2 = g.pick(SH_VARS)
+        if g2:
+            st.append("%s = %s;" % (n2, g.pick(g2)))
+    b = g.pick(bad)
+    q = r.random()
+    if q < 0.5:
+        st.append("%s = %s;" % (name, b))
+    elif q < 0.6:
+        st.append("%s %s %s;" % (name, g.pick(["%%=", "+=", "-=", "*=", "**=", "<<="]), b))
+    elif q < 0.75:
+        st.append('tx = "0"; %s("0", %s, tx); %s(%s, %s, %s);' % ("sub", '"1"', g.pick(["sub", "gsub", "str::sub", "str::gsub"]), g.pick(['"."', '".*"', '"^"', '"$"', '""', "/./", "/^/"]), b if b not in ("m", "r") else '"a("', name))
+    elif q < 0.85:
+        st.append(g.pick(['(getline %s < "in");', '("echo -1" | getline %s);', "(getline %s);", '("echo a b c" | getbline %s);']) % name)
+    elif q < 0.93:
+        st.append("shset(%s, %s);" % (name, b))
+    else:
+        st.append("split(%s, %s); n = str::splita(sv, %s);" % (b if b not in ("m", "r") else "sv", name, name))
+    st.append(use)
+    st.append("%s = %s; print %s;" % (name, g.pick(good) if good else '"x"', name))
+    ctx = g.pick(["BEGIN", "BEGIN", "", "", "END", "NR == 2"])
+    tail = g.pick(["", "", "END { %s }" % use, "{ print NF }"])
+    return "function shset(&x, v) { x = v; return 1; }\n%s { %s }\n%s\n" % (ctx, " ".join(st), tail)
+
+
 def targeted(rng):
     g = Gen(rng)
-    k = rng.randrange(34)
+    k = rng.randrange(42)
+    if k >= 38:
+        return g, setter_history(g)
+    if k >= 34:
+        return g, twin_sweep(g)
     if k >= 28:
         return g, parse_error_after_prefix(g)
     if k >= 24:
